@@ -2,6 +2,7 @@ package gosym
 
 import (
 	"go/types"
+	"regexp"
 	"regexp/syntax"
 	"unicode"
 
@@ -251,6 +252,40 @@ func init() {
 			unsupportedf("Match on a Regexp not created by the model")
 		}
 		return obj.matchTerm(t, &StrVal{B: sliceBytes(a[1].(*SliceVal))}, false)
+	}
+	// FindSubmatch on a CONCRETE subject: the real regexp package decides at encode time
+	I["(*regexp.Regexp).FindSubmatch"] = func(t *Thread, fn *ssa.Function, a []Value) Value {
+		c, _ := a[0].(*Cell)
+		if c == nil {
+			rtPanic("invalid memory address or nil pointer dereference")
+		}
+		obj, ok := c.Tag.(*regexObj)
+		if !ok {
+			unsupportedf("FindSubmatch on a Regexp not created by the model")
+		}
+		sl := a[1].(*SliceVal)
+		subj := make([]byte, 0, sl.Len)
+		for _, b := range sliceBytes(sl) {
+			if !b.IsConst() {
+				unsupportedf("regexp.FindSubmatch on a subject with symbolic bytes (only concrete subjects are modelled)")
+			}
+			subj = append(subj, byte(b.BV))
+		}
+		noteStub("regexp.FindSubmatch: concrete pattern and concrete subject, decided by the real regexp package at encode time")
+		m := regexp.MustCompile(obj.src).FindSubmatch(subj)
+		bt := types.NewSlice(types.Typ[types.Byte])
+		if m == nil {
+			return &SliceVal{}
+		}
+		arr := newArrayCell(bt, len(m))
+		for i, g := range m {
+			ts := make([]*Term, len(g))
+			for j, ch := range g {
+				ts[j] = MkBV(uint64(ch), 8)
+			}
+			arr.Elem(i).V = byteSliceOf(ts)
+		}
+		return &SliceVal{Arr: arr, Len: len(m), Cap: len(m)}
 	}
 	// verifapi.FullMatch(pattern, s): reference semantics "all of s is in the language of pattern"
 	I[apiP+"FullMatch"] = func(t *Thread, fn *ssa.Function, a []Value) Value {
